@@ -98,6 +98,23 @@ def run(c, replay):
     inp = "\n".join(" ".join(str(x) for x in cf) for cf in cfgs) + "\n"
     rc, out_c, err_c = V.run([exe], inp=inp)
     rm, out_m, err_m = V.model_run(mexe, "c14", inp)
+    if rc != 0 and rm == 0:
+        # the library's own ownership / routing code aborted or did not finish on some triple: find the smallest such triple, one run each
+        # (the loops of partition_start are proved to terminate within their fuel: a run that does not finish is itself a failing input)
+        for cf in sorted(cfgs, key=lambda t: (t[0], t[1], t[2])):
+            one = " ".join(str(x) for x in cf) + "\n"
+            r1, o1, e1 = V.run([exe], inp=one, timeout=10)
+            rm1, om1, em1 = V.model_run(mexe, "c14", one)
+            if r1 != 0:
+                san = "Sanitizer" in e1 or "runtime error" in e1
+                c.violation("sanitizer" if san else "ownership-code-does-not-finish", dict(kind="property", case=list(cf), rc=r1,
+                            what="the library's ownership / routing code %s on this (lps, ranks, threads, probed LPs)" % ("aborts under the sanitizer" if san else "does not finish (10 s) or exits abnormally"),
+                            model=om1.split("\n")[:8], stderr=e1[-1500:], how="./check C14 --replay <this file>"), True)
+                return
+            if o1 != om1:
+                law, _k = oracle(cf[:3], [l for l in o1.split("\n")[1:] if l])
+                c.violation("ownership:" + (law or "differs-from-model"), dict(kind="property", law=law, case=list(cf), impl=o1.split("\n")[:40], model=om1.split("\n")[:40]), True)
+                return
     if rc != 0 or rm != 0:
         sig = "sanitizer" if "Sanitizer" in err_c or "runtime error" in err_c else "driver-failed"
         last = [l for l in out_c.split("\n") if l.startswith("C ")]
